@@ -218,3 +218,22 @@ prop("C03", "fault_enumeration",
           "thorough": {"checks": 15000, "shards": 16, "timeout": 2400}},
      ],
      ["calls whose own context ended may receive zero or one result"])
+
+
+prop("C11", "exploration",
+     "structure-aware property-based testing (rapid: valid responses damaged by drawn mutations of length / count / "
+     "index fields, hostile constants, truncation, byte flips) + native coverage-guided fuzzing of the decoders and of "
+     "one step of the connection reader",
+     "Generated malformed response frames, cellblocks, compressed streams and region-info values are fed to the "
+     "decoders and to the reader's receive step with calls outstanding; buffers have cap == len so that any read "
+     "beyond the received data panics; oracle: no panic, termination, no addressed call left without result or error.",
+     "Trusted: the hook VerifReceive registers calls exactly as send() does; duplicate results are drained as a waiting "
+     "caller would. Inputs declaring a compressed block > 64 MiB are skipped and counted (resource exhaustion is "
+     "outside the statement).",
+     [
+         {"test": "TestC11_Malformed", "quick": {"checks": 12000, "timeout": 400},
+          "thorough": {"checks": 100000, "shards": 16, "timeout": 3000}},
+         {"fuzz": "FuzzC11Receive", "thorough": {"fuzztime": "120s", "workers": 8, "timeout": 500}},
+         {"fuzz": "FuzzC11CellBlock", "thorough": {"fuzztime": "120s", "workers": 8, "timeout": 500}},
+     ],
+     ["frames are at most 1 MiB (larger declared sizes are clamped)"])
